@@ -176,7 +176,9 @@ void phist_gen(phist *h, const vh_cipher *c, vh_rng *r, unsigned g)
         int k = 1 + (int)vh_below(r, 3);
         while (k--) switch (vh_below(r, 4)) {
             case 0: pgen_key(h, r, g); break;
-            case 1: pgen_crypt(h, r, g | G_SMALL, &budget); break;
+            case 1: pgen_crypt(h, r, g | G_SMALL, &budget);
+                    if (!vh_below(r, 3)) { cop *o = &h->ops[h->n - 1]; o->flags |= (uint8_t)(vh_below(r, 2) ? F_NULL_IN : 0) | (uint8_t)(vh_below(r, 2) ? F_NULL_OUT : 0); if (vh_below(r, 2)) { o->len = 0; o->dlen = 0; } o->cls = "crypt(zeroed,null-or-empty)"; }
+                    break;
             case 2: if (c->id == CIPH_MANTIS) { padd(h, P_SWAP, "swap(zeroed)"); break; } /* fallthrough */
             default: padd(h, P_CLEANUP, "cleanup(zeroed)"); break;
         }
@@ -195,7 +197,10 @@ void phist_gen(phist *h, const vh_cipher *c, vh_rng *r, unsigned g)
             k = (int)vh_below(r, 4);
             while (k--) switch (vh_below(r, 4)) {
                 case 0: pgen_key(h, r, g); h->ops[h->n - 1].cls = "set_key(after-cleanup)"; break;
-                case 1: pgen_crypt(h, r, g | G_SMALL, &budget); h->ops[h->n - 1].cls = "crypt(after-cleanup)"; break;
+                case 1: pgen_crypt(h, r, g | G_SMALL, &budget); h->ops[h->n - 1].cls = "crypt(after-cleanup)";
+                        /* on a dead object the call must fail whatever else is passed: empty requests, NULL buffers */
+                        if (!vh_below(r, 3)) { cop *o = &h->ops[h->n - 1]; o->flags |= (uint8_t)(vh_below(r, 2) ? F_NULL_IN : 0) | (uint8_t)(vh_below(r, 2) ? F_NULL_OUT : 0); if (vh_below(r, 2)) { o->len = 0; o->dlen = 0; } o->cls = "crypt(after-cleanup,null-or-empty)"; }
+                        break;
                 case 2: if (c->id == CIPH_MANTIS) { padd(h, P_SWAP, "swap(after-cleanup)"); break; } /* fallthrough */
                 default: padd(h, P_CLEANUP, "cleanup(again)"); break;
             }
@@ -255,7 +260,12 @@ void phist_exec(const phist *h, int i, vh_obj *ob, ctrans *t, const char *prefix
         if (obj && ret) { ob->live = 1; if (t->backend < 0) t->backend = c->par_backend(&ob->H); }
         break;
     case P_CLEANUP:
-        vh_call_begin("parallel_ecb_cleanup"); c->par_cleanup(obj); vh_call_end();
+        if (obj && !ob->live && vh_ro_inert_cleanup) {
+            /* cleanup of a zeroed / already cleaned-up object must do nothing: run it on a PROT_READ copy of the handle */
+            vh_handle *ro = (vh_handle *)vh_ro_copy(1, &ob->H, sizeof(ob->H));
+            vh_call_begin("parallel_ecb_cleanup(inert, read-only handle)"); c->par_cleanup(ro); vh_call_end();
+            vh_ro_release(1);
+        } else { vh_call_begin("parallel_ecb_cleanup"); c->par_cleanup(obj); vh_call_end(); }
         if (obj) ob->live = 0;
         break;
     case P_SWAP:
@@ -273,7 +283,7 @@ void phist_exec(const phist *h, int i, vh_obj *ob, ctrans *t, const char *prefix
         if (o->flags & F_INPLACE) out = in; else { out = pl(2, o, 1, o->len); ub = 1; memset(out, 0xEE, o->len); }
         if (c->id == CIPH_MANTIS) { tw = pl(3, o, 0, o->len); ut = 1; memcpy(tw, h->pool + o->doff + o->len, o->len); }
         vh_call_begin(o->kind == P_DECRYPT ? "parallel_ecb_decrypt" : "parallel_ecb_encrypt");
-        ret = (o->kind == P_DECRYPT ? c->par_decrypt : c->par_encrypt)(out, in, tw, o->len, obj);
+        ret = (o->kind == P_DECRYPT ? c->par_decrypt : c->par_encrypt)((o->flags & F_NULL_OUT) ? NULL : out, (o->flags & F_NULL_IN) ? NULL : in, tw, o->len, obj);
         vh_call_end();
         if (ret && t->out_n + o->len <= H_OUT) { memcpy(t->out + t->out_n, out, o->len); t->r[i].olen = o->len; t->out_n += o->len; }
         break; }
